@@ -28,6 +28,7 @@ func rulesC06(c *Ctx, r *Report) {
 	rulesLineTerminators(c, r, "C06")
 	rulesOpenedHandle(c, r)
 	rulesNoTranscoder(c, r)
+	rulesFastaAutomaton(c, r) // CR and LF, and how lines are taken apart, as the reader's transition function
 }
 
 // ---------------------------------------------------------------------------
@@ -86,10 +87,44 @@ func rulesFileDelegation(c *Ctx, r *Report) {
 			continue
 		}
 		yield := info.Defs[lit.Type.Params.List[0].Names[0]]
+		// the literal only hands (path, yield) to a function of the package that does the work: analyse that function
+		litBody := lit.Body
+		if len(lit.Body.List) == 1 {
+			if es, ok := lit.Body.List[0].(*ast.ExprStmt); ok {
+				if call, ok := es.X.(*ast.CallExpr); ok {
+					if fn, _ := typeutil.Callee(info, call).(*types.Func); fn != nil && fn.Pkg() == p.Types {
+						if hd := findDecl(p, fn.Name()); hd != nil && hd.Body != nil && hd.Recv == nil {
+							var params []types.Object
+							for _, fld := range hd.Type.Params.List {
+								for _, nm := range fld.Names {
+									params = append(params, info.Defs[nm])
+								}
+							}
+							var np, ny types.Object
+							for i, a := range call.Args {
+								if i >= len(params) {
+									break
+								}
+								switch identObj(info, a) {
+								case pathParam:
+									np = params[i]
+								case yield:
+									ny = params[i]
+								}
+							}
+							if np != nil && ny != nil {
+								litBody, pathParam, yield = hd.Body, np, ny
+								r.analysed(sp.rel + "." + fn.Name())
+							}
+						}
+					}
+				}
+			}
+		}
 		// FD1: f, err := aio.Open(path)
 		var openCall *ast.CallExpr
 		var openVar, errVar types.Object
-		ast.Inspect(lit.Body, func(nd ast.Node) bool {
+		ast.Inspect(litBody, func(nd ast.Node) bool {
 			as, ok := nd.(*ast.AssignStmt)
 			if !ok || len(as.Rhs) != 1 || len(as.Lhs) != 2 {
 				return true
@@ -126,7 +161,7 @@ func rulesFileDelegation(c *Ctx, r *Report) {
 		fdOpenErrYielded(c, r, sp, where, openCall)
 		// FD3: must pass through `range Reader(f)`
 		var rng *ast.RangeStmt
-		ast.Inspect(lit.Body, func(nd ast.Node) bool {
+		ast.Inspect(litBody, func(nd ast.Node) bool {
 			rs, ok := nd.(*ast.RangeStmt)
 			if !ok {
 				return true
@@ -156,7 +191,7 @@ func rulesFileDelegation(c *Ctx, r *Report) {
 			r.violated("FD3", where, "delegates to "+sp.reader, c.pos(lit.Pos()), fmt.Sprintf("no `for … := range %s(f)` over the opened stream: File does not yield what %s yields on the file's bytes", sp.reader, sp.reader))
 			continue
 		}
-		g := cfg.New(lit.Body, mayReturn(info))
+		g := cfg.New(litBody, mayReturn(info))
 		var rangeBlocks []*cfg.Block
 		for _, b := range g.Blocks {
 			for _, nd := range b.Nodes {
@@ -298,7 +333,14 @@ func fdOpenErrYielded(c *Ctx, r *Report, sp fileSpec, where string, openCall *as
 	}
 	e := &fdEngine{c: c, mode: fdStream, derived: map[*ssa.Function]bool{}}
 	n := 0
+	// the function itself, its literals, and a function of the package a literal hands its whole work to
+	fns := family(outer)
 	for _, f := range family(outer) {
+		if g, _ := c.soleDelegate(f); g != nil {
+			fns = append(fns, family(g)...)
+		}
+	}
+	for _, f := range fns {
 		for _, t := range e.terms(f) {
 			if t.what != "aio.Open" {
 				continue
@@ -388,6 +430,12 @@ func (rf *readerFlow) follow(v ssa.Value, from *ssa.Function) {
 			switch ad := x.Addr.(type) {
 			case *ssa.Alloc:
 				rf.followCell(ad, from)
+			case *ssa.FieldAddr:
+				// a field of a local struct that becomes the receiver of a method value: follow the field in the method
+				if al, ok := ad.X.(*ssa.Alloc); ok && rf.followStructField(al, ad.Field, from) {
+					continue
+				}
+				rf.bad = append(rf.bad, "stored into memory at "+rf.c.pos(x.Pos()))
 			default:
 				rf.bad = append(rf.bad, "stored into memory at "+rf.c.pos(x.Pos()))
 			}
@@ -1258,6 +1306,10 @@ func fdDelegatesSSA(c *Ctx, sp fileSpec) (bool, string) {
 		}
 		// (a) Reader(f)(body)
 		if isReaderCall(cl.Call.Value) && len(cl.Call.Args) == 1 {
+			if isYield(cl.Call.Args[0]) {
+				sites[cl.Block()] = true // the consumer's callback handed to Reader(f) as it is
+				return
+			}
 			if b, isCb := bodyOf(cl.Call.Args[0], lit, yCells, lit.Params[0]); b != nil {
 				if ok, w := passThrough(b, isCb); ok {
 					sites[cl.Block()] = true
@@ -1360,4 +1412,70 @@ func fdDelegatesSSA(c *Ctx, sp fileSpec) (bool, string) {
 		return false, "after a successful open a return is reachable without invoking " + sp.reader + "(f)"
 	}
 	return true, ""
+}
+
+// followStructField: the local struct al is only loaded whole and bound as the receiver of method values; the
+// stream stored in its field k is followed as field k of the receiver inside those methods.
+func (rf *readerFlow) followStructField(al *ssa.Alloc, k int, from *ssa.Function) bool {
+	okAll, any := true, false
+	for _, ref := range *al.Referrers() {
+		switch x := ref.(type) {
+		case *ssa.FieldAddr, *ssa.DebugRef:
+		case *ssa.UnOp:
+			if x.Op != token.MUL {
+				okAll = false
+				continue
+			}
+			for _, r2 := range *x.Referrers() {
+				mc, ok := r2.(*ssa.MakeClosure)
+				if !ok {
+					if _, dbg := r2.(*ssa.DebugRef); !dbg {
+						okAll = false
+					}
+					continue
+				}
+				w, ok := mc.Fn.(*ssa.Function)
+				if !ok || !strings.Contains(w.Synthetic, "bound method wrapper") {
+					okAll = false
+					continue
+				}
+				var m *ssa.Function
+				instrs(w, func(in ssa.Instruction) {
+					if ci, ok := in.(ssa.CallInstruction); ok && ci.Common().StaticCallee() != nil {
+						m = ci.Common().StaticCallee()
+					}
+				})
+				if m == nil || m.Blocks == nil || len(m.Params) == 0 {
+					okAll = false
+					continue
+				}
+				any = true
+				recv := m.Params[0]
+				for _, r3 := range *recv.Referrers() {
+					switch y := r3.(type) {
+					case *ssa.Field:
+						if y.Field == k {
+							rf.follow(y, m)
+						}
+					case *ssa.Store:
+						// spilled receiver: loads of field k of the spill cell
+						if cell, ok := y.Addr.(*ssa.Alloc); ok && y.Val == ssa.Value(recv) {
+							for _, r4 := range *cell.Referrers() {
+								if fa, ok := r4.(*ssa.FieldAddr); ok && fa.Field == k {
+									for _, r5 := range *fa.Referrers() {
+										if ld, ok := r5.(*ssa.UnOp); ok && ld.Op == token.MUL {
+											rf.follow(ld, m)
+										}
+									}
+								}
+							}
+						}
+					}
+				}
+			}
+		default:
+			okAll = false
+		}
+	}
+	return okAll && any
 }
